@@ -28,6 +28,16 @@ def generate(rng, i):
         for op in script:
             if op["op"] == "step":
                 op["action"] = [float(rng.choice([0, 1, 2, -1, 3, 0.5, 0.75, -12.5, 30])) for _ in range(n)]
+    if rng.random() < 0.3:
+        # a second episode on the same environment (state carried over from the first - pending delayed
+        # decisions, holdings - must play no role): possibly after abandoning the first one mid-way
+        first = script if rng.random() < 0.5 else script[:rng.randint(1, len(script))]
+        second = gen_epi.full_episode_script(rng, env)
+        if nr_mode and sp["type"] == "box":
+            for op in second:
+                if op["op"] == "step":
+                    op["action"] = [float(rng.choice([0, 1, 2, -1, 3, 0.5, 0.75, -12.5, 30])) for _ in range(n)]
+        script = first + second
     return {"kind": "epi", "envs": [env], "clock0": "1999-01-01T00:00:00", "script": script, "prng": rng.randrange(2 ** 31)}
 
 
@@ -40,9 +50,11 @@ def execute(scenario):
     delay = env_spec.get("delay", 0)
     led = epicheck.ReplayLedger(h)
     trades = 0
-    for ep in h.episodes:
+    for ei, ep in enumerate(h.episodes):
         if ep["failed"]:
             break
+        if ei > 0:
+            probe("env_second_episode")
         acts = [st["action"] for st in ep["steps"]]
         for st in ep["steps"]:
             if st["done_before"]:
